@@ -18,10 +18,10 @@ CLAUSE_PROPS = {
     'DupNoEffect': ['C06'], 'StartOnce': ['C06', 'C10'], 'NoDoubleDispatch': ['C06', 'C10'],
     'WithinLimit': ['C07'], 'OnePerIndex': ['C07', 'C12'], 'CompleteAfterAll': ['C07', 'C12'], 'WithItemsFinalState': ['C07', 'C12'],
     'NoNewTasksWhilePaused': ['C10'], 'PauseAck': ['C10'],
-    'NoNewTasksAfterStop': ['C11'], 'StopAck': ['C11'], 'TreeCancelled': ['C11'],
-    'AttemptBound': ['C08'], 'StopAtFirstSuccess': ['C08'], 'FinalIffLast': ['C08'], 'DelayRespected': ['C08'],
+    'NoNewTasksAfterStop': ['C11'], 'WaitingStaysAfterStop': ['C11'], 'StopAck': ['C11'], 'TreeCancelled': ['C11'],
+    'AttemptBound': ['C08'], 'StopAtFirstSuccess': ['C08'], 'RetryStopsWhenTold': ['C08'], 'RetryExhausted': ['C08'], 'FinalIffLast': ['C08'], 'DelayRespected': ['C08'],
     'WaitBeforeRespected': ['C08'], 'PauseBeforeRespected': ['C08'], 'WaitAfterRespected': ['C08'], 'TimeoutJudged': ['C08'], 'FailOnApplied': ['C08'],
-    'ExpiredFailed': ['C20'], 'NeverExpireFresh': ['C20'], 'NoStuckTaskAtRest': ['C20', 'C01'],
+    'ExpiredFailed': ['C20'], 'NeverExpireFresh': ['C20'], 'NoStuckTaskAtRest': ['C20', 'C01'], 'ItemsTaskCompletes': ['C07', 'C12'],
     'RerunRestores': ['C12'], 'SkipApplied': ['C12'], 'RerunReexecutes': ['C12'], 'PartialRerunOnlyFailed': ['C12', 'C07'],
     'ParentMirrorsChild': ['C09', 'C12'], 'CalledDefinition': ['C09'], 'RootAndNamespace': ['C09'],
     'Prescribed': ['C01', 'C02', 'C04', 'C09', 'C10', 'C12'],
@@ -73,10 +73,10 @@ def judge(d, traces, chunk=150):
                     for x in s_['obs']['tk']:
                         if x['name'] not in known:
                             known[x['name']] = dict(kind='action', join=0, succ=[], err=[], comp=[], requires=[], outcome=[['ok']], wf='unknown', sub='',
-                                                    items=-1, conc=0, retry=0, delay=0, waitBefore=0, waitAfter=0, timeout=0, pauseBefore=False, failOn=False)
+                                                    items=-1, conc=0, retry=0, delay=0, contOn='none', breakOn='none', waitBefore=0, waitAfter=0, timeout=0, pauseBefore=False, failOn=False)
                             t['prog']['inbound'][x['name']] = []
                 fh.write(json.dumps({'prog': t['prog'], 'meta': {'mayPause': t['meta']['mayPause'], 'faulty': t['meta']['faulty'],
-                                              'hbThreshold': int(t['meta'].get('hbThreshold', 0)), 'policies': bool(t['prog']['flags'].get('retry') or t['prog']['flags'].get('policy'))},
+                                              'hbThreshold': int(t['meta'].get('hbThreshold', 0)), 'hbBatch': int(t['meta'].get('hbBatch', 0)), 'policies': bool(t['prog']['flags'].get('retry') or t['prog']['flags'].get('policy'))},
                                      'declared': t['declared'], 'steps': t['steps']}) + '\n')
         mod = os.path.join(d, 'MC_EngineObsTrace_%d.tla' % k)
         with open(mod, 'w') as fh:
